@@ -7,7 +7,7 @@
      level 3 (\x03): key \x03 value inside an entry / fields of a dump line
      level 4 (\x04): key parts, list items (each prefixed), integer bounds
      level 5 (\x05): choices (each prefixed), deprecated-map pairs *)
-From MV Require Import Base.Strs Options.Kinds Options.Store Options.Init.
+From MV Require Import Base.Strs Options.Kinds Options.Store Options.Init Options.MachineFile.
 Open Scope N_scope.
 
 (* ---------------------------------------------------------------- decoding *)
@@ -209,6 +209,24 @@ Definition enc_table_dd : str :=
 Definition enc_table_nopref : str :=
   join [2] (map (fun e => join [3] [fst e; enc_items 4 (map (fun p => fst p ++ [5] ++ snd p) (snd e))]) NOPREFIX).
 
+(* machine-file configuration: sections each prefixed by \x01: name \x05 entries, the entries
+   each prefixed by \x02: key-text \x03 value *)
+Definition dec_sentries (s : str) : list (str * pv) :=
+  map (fun e => match split_on 3 e [] with
+                | [k; v] => (k, dec_value v)
+                | _ => (e, PStr [])
+                end) (prefixed_items 2 s).
+Definition dec_cfg (s : str) : option (list section) :=
+  match s with
+  | [45] => None
+  | _ => Some (map (fun x => match split_on 5 x [] with
+                             | [n; body] => (n, dec_sentries body)
+                             | _ => (x, [])
+                             end) (prefixed_items 1 s))
+  end.
+Definition enc_res_key (r : res key) : str :=
+  match r with Ok k => enc_key k | Err e => enc_err e end.
+
 Definition run (fn : str) (args : list str) : str :=
   if str_eqb fn (s2l "seq") then
     match args with
@@ -248,6 +266,27 @@ Definition run (fn : str) (args : list str) : str :=
   else if str_eqb fn (s2l "sandir") then
     match args with
     | [p; k; v] => enc_res_value (sanitize_dir_option_value p (dec_key k) (dec_value v))
+    | _ => s2l "?"
+    end
+  else if str_eqb fn (s2l "mfkey") then
+    match args with
+    | [t; sp; m] =>
+        enc_res_key (mfilestr2key t (match sp with 61 :: r => Some r | _ => None end)
+                                  (if str_eqb m [66] then Build else Host))
+    | _ => s2l "?"
+    end
+  else if str_eqb fn (s2l "fromstr") then
+    match args with
+    | [t] => enc_res_key (from_string t)
+    | _ => s2l "?"
+    end
+  else if str_eqb fn (s2l "mfload") then
+    match args with
+    | [c; n; x] =>
+        match env_options (dec_bool c) (dec_cfg n) (dec_cfg x) with
+        | Ok d => join [2] (map enc_kv_line d)
+        | Err e => enc_err e
+        end
     | _ => s2l "?"
     end
   else if str_eqb fn (s2l "tables") then
